@@ -984,15 +984,17 @@ def _fields(run, P):
     detail = ""
     if tmpl is not None:
         gen_map = {}
+        glocals = _single_locals(fy.node)
         for k in fmt.keywords:
-            gen_map[k.arg] = _attr_of(k.value)
+            gen_map[k.arg] = _attr_of(k.value, glocals)
         # template: field={name}
         import re
         pairs = dict(re.findall(r"(\w+)=\{(\w+)\}", tmpl))
         gen_fields = {fld: gen_map.get(ph) for fld, ph in pairs.items()}
         ic = [n for n in ast.walk(iy.node) if isinstance(n, ast.Call)
               and dotted(n.func) == "StateComputed"]
-        int_fields = {k.arg: _attr_of(k.value) for k in ic[0].keywords} if ic else {}
+        ilocals = _single_locals(iy.node)
+        int_fields = {k.arg: _attr_of(k.value, ilocals) for k in ic[0].keywords} if ic else {}
         ok = gen_fields == int_fields and len(gen_fields) == 4
         detail = f"interpreter {int_fields} vs generated {gen_fields}"
     run.ob("C01.fields", fy, fmt if fmt is not None else fy.node, ok,
@@ -1001,10 +1003,28 @@ def _fields(run, P):
            detail=detail)
 
 
-def _attr_of(v):
+def _single_locals(fn):
+    """locals of a function that are assigned exactly once, by a plain assignment"""
+    seen = {}
+    for s_ in ast.walk(fn):
+        if isinstance(s_, ast.Assign) and len(s_.targets) == 1 and isinstance(s_.targets[0], ast.Name):
+            seen.setdefault(s_.targets[0].id, []).append(s_.value)
+        elif isinstance(s_, (ast.AugAssign, ast.For, ast.NamedExpr)):
+            for n_ in ast.walk(s_.target):
+                if isinstance(n_, ast.Name):
+                    seen.setdefault(n_.id, []).extend([None, None])
+    return {k: v[0] for k, v in seen.items() if len(v) == 1 and v[0] is not None}
+
+
+def _attr_of(v, local=None):
     """inst.time from self._expr(inst.time) / repr(inst.time_id) / stmt.time"""
-    while isinstance(v, ast.Call) and v.args:
-        v = v.args[0]
+    for _ in range(6):
+        while isinstance(v, ast.Call) and v.args:
+            v = v.args[0]
+        if local and isinstance(v, ast.Name) and v.id in local:
+            v = local[v.id]
+            continue
+        break
     if isinstance(v, ast.Attribute):
         return v.attr
     return ast.unparse(v)
